@@ -51,8 +51,7 @@ def c03_check(cd, expect_raise=False):
         if expect_raise:
             return ["to_code emitted an operand that indexes outside its table instead of raising: " + raw_bad[0]]
         return raw_bad[:3]
-    if expect_raise:
-        return []        # inconsistent overrides that still happen to give in-range operands are not demanded to raise
+    # inconsistent overrides that happen to give in-range operands need not raise - but then the code must still say what the data says
     try:
         ref = oracle.cpython_instructions(code)
     except Exception as e:
@@ -224,6 +223,13 @@ def build(recipe):
         elif pat == "collision_const":
             body = [I("LOAD_CONST", Constant(1, 0), line_number=1), I("LOAD_CONST", Constant(True, 0), line_number=1)]
             bad = True
+        elif pat == "collision_fill":     # overrides at 0 and 2, an entry without override (wants slot 2), then the hole is filled
+            body = [I("LOAD_CONST", Constant("x", 0), line_number=1), I("LOAD_CONST", Constant("y", 2), line_number=1), I("LOAD_CONST", Constant("z"), line_number=1),
+                    I("LOAD_CONST", Constant("w", 1), line_number=1)]
+            bad = True
+        elif pat == "collision_fill_names":
+            body = [I("LOAD_NAME", Name("x", 0), line_number=1), I("LOAD_NAME", Name("y", 2), line_number=1), I("LOAD_NAME", Name("z"), line_number=1), I("LOAD_NAME", Name("w", 1), line_number=1)]
+            bad = True
         else:
             raise ValueError(pat)
         body += [I("RETURN_VALUE", line_number=1)]
@@ -304,7 +310,7 @@ def c03_recipes(tier, seed):
         for jump in (None, "abs", "rel"):
             for pad in (0, 200):
                 out.append({"kind": "cells", "ncells": nc, "nfrees": nf, "pad": pad, "jump": jump})
-    for pat in ("consistent", "gap", "gap2", "collision", "collision_const"):
+    for pat in ("consistent", "gap", "gap2", "collision", "collision_const", "collision_fill", "collision_fill_names"):
         out.append({"kind": "overrides", "pattern": pat})
     for at in (1, 2, 255, 256, 70000):
         out.append({"kind": "overrides", "pattern": "gap", "at": at})
